@@ -96,7 +96,7 @@ def _create_constraint(
     if mjd is not None:
       shape = tuple(sizes[dim] if isinstance(dim, str) else dim for dim in f.type.shape)
       val = np.zeros(shape, dtype=wp.dtype_to_numpy(f.type.dtype))
-      if f.name in ("type", "id", "pos", "margin", "D", "vel", "aref", "frictionloss", "force", "state"):
+      if f.name in ("type", "id", "pos", "margin", "D", "vel", "aref", "frictionloss", "force", "state", "island"):
         val[:, : mjd.nefc] = np.tile(getattr(mjd, "efc_" + f.name), (nworld, 1))
       efc_kwargs[f.name] = wp.array(val, dtype=f.type.dtype)
     else:
@@ -1735,7 +1735,9 @@ def _reset_history(
       history_out[worldid, adr + 1] = float(n - 1)
       for k in range(n):
         # samples are taken at step times: snap to the next multiple of the timestep, as mj_resetData does
-        history_out[worldid, adr + 2 + k] = timestep * wp.ceil((last - float(n - 1 - k) * period) / timestep)
+        # (a float32 quotient that should be an integer must not round up to the next step)
+        nstep = (last - float(n - 1 - k) * period) / timestep
+        history_out[worldid, adr + 2 + k] = timestep * wp.ceil(nstep - 2.0e-6 * wp.max(1.0, wp.abs(nstep)))
       for k in range(n * sensor_dim[i]):
         history_out[worldid, adr + 2 + n + k] = 0.0
 
